@@ -26,7 +26,7 @@ PROBES = ["unordered_permuted", "straggler_overtaken", "ties_broken", "lazy_call
           "faults_job_exception", "dict_runs", "list_runs", "gen_runs", "unordered_runs",
           "after_fault_call_ok", "seam_entered", "sequential_path", "reverse_order_runs",
           "pbar_runs", "closure_jobs", "exact_once_checked", "fault_raised_to_caller",
-          "fault_kind_exception", "fault_kind_worker_death", "fault_kind_memory"]
+          "fault_kind_exception", "fault_kind_worker_death", "fault_kind_memory", "preamble_calls"]
 REAL_VS_STUB = {
     "real": ["accelforge.util.parallel.parallel / delayed / set_n_parallel_jobs",
              "cloudpickle round trip of every job and result", "tqdm progress bar"],
@@ -101,6 +101,12 @@ def gen_scenario(seed):
     }
     if sc["container"] == "dict":
         sc["return_as"] = None
+    # call history: what the runner was used for earlier in this process.  The module is reloaded
+    # at the start of every scenario, so that *all* history a verdict can depend on is in the
+    # scenario (and hence in the replay file).
+    sc["preamble"] = [{"kind": r.choice(["list", "dict", "unordered", "generator"]),
+                       "n": r.choice([2, 3, 5]), "pbar": r.random() < 0.3, "n_jobs": r.choice([2, 3, 8])}
+                      for _ in range(r.choice([0, 0, 1, 1, 2]))]
     return sc
 
 
@@ -127,6 +133,14 @@ def simplify(sc):
         yield dict(sc, key_shuffle=False)
     if sc["key_kind"]:
         yield dict(sc, key_kind=0)
+    pre = sc.get("preamble") or []
+    for i in range(len(pre)):
+        yield dict(sc, preamble=pre[:i] + pre[i + 1:])
+    for i, c in enumerate(pre):
+        if c["pbar"]:
+            yield dict(sc, preamble=pre[:i] + [dict(c, pbar=False)] + pre[i + 1:])
+        if c["n"] > 2:
+            yield dict(sc, preamble=pre[:i] + [dict(c, n=2)] + pre[i + 1:])
     if sc["n_jobs"] not in (None, 2):
         yield dict(sc, n_jobs=2)
     if sc["W_default"] != 2:
@@ -165,14 +179,51 @@ def execute(sc, tape, run_id=0):
 
     def job_fault(sim, rec, i):
         # dict jobs are re-wrapped; position i in the submitted list is what we target
-        if sc["fault_at"] is not None and i == sc["fault_at"] and rec.index == 0:
+        if sc["fault_at"] is not None and i == sc["fault_at"] and rec.index == n_pre_calls:
             return fault_exc
         return None
 
     sim = ex.Sim(tape, W=sc["W_default"], order_mode=sc["order_mode"],
-                 exec_shuffle=sc["exec_shuffle"], job_fault=job_fault)
+                 exec_shuffle=sc["exec_shuffle"], job_fault=None)
     EXEC.clear()
+    import importlib
+    importlib.reload(P)  # fresh module state: history is what the scenario's preamble makes
     P.set_n_parallel_jobs(sc["W_default"])
+    # ---- preamble (earlier use of the runner in this process), judged by the same oracle
+    old_err0 = sys.stderr
+    sys.stderr = io.StringIO()
+    try:
+        with ex.install(sim):
+            for pi, pc in enumerate(sc.get("preamble") or []):
+                m = pc["n"]
+                pj = [P.delayed(counted_job)(run_id + 100 + pi, i) for i in range(m)]
+                want = [("tok", run_id + 100 + pi, i) for i in range(m)]
+                kw = {"n_jobs": pc["n_jobs"]}
+                if pc["pbar"]:
+                    kw["pbar"] = "pre"
+                try:
+                    if pc["kind"] == "dict":
+                        got = P.parallel({f"p{i}": j for i, j in enumerate(pj)}, **kw)
+                        ok = isinstance(got, dict) and [got.get(f"p{i}") for i in range(m)] == want
+                    elif pc["kind"] == "unordered":
+                        got = list(P.parallel(pj, return_as="generator_unordered", **kw))
+                        ok = sorted(got) == sorted(want)
+                    elif pc["kind"] == "generator":
+                        got = list(P.parallel(pj, return_as="generator", **kw))
+                        ok = got == want
+                    else:
+                        got = P.parallel(pj, **kw)
+                        ok = got == want
+                except Exception as e:
+                    got, ok = f"{type(e).__name__}: {e}", False
+                if not ok:
+                    bad("preamble_" + pc["kind"], f"preamble call {pi} ({pc}) returned {str(got)[:200]}")
+    finally:
+        sys.stderr = old_err0
+    if viols:
+        return viols, {"entered": True, "fault_fired": False, "after_ok": None, "delivery": (), "sim": sim}
+    n_pre_calls = len(sim.calls)
+    sim.job_fault = job_fault
     kwargs = {}
     if sc["n_jobs"] is not None:
         kwargs["n_jobs"] = sc["n_jobs"]
@@ -206,10 +257,11 @@ def execute(sc, tape, run_id=0):
         sys.stderr = old_err
         P.set_n_parallel_jobs(os.cpu_count())
 
-    entered = len(sim.calls) > 0 and sim.calls[0].n_jobs == n
+    main_calls = sim.calls[n_pre_calls:]
+    entered = len(main_calls) > 0 and main_calls[0].n_jobs == n
     fault_fired = sim.stats["faults_job_exception"] > 0
     info = {"entered": entered, "fault_fired": fault_fired, "after_ok": None,
-            "delivery": tuple(sim.calls[0].delivery) if sim.calls else (),
+            "delivery": tuple(main_calls[0].delivery) if main_calls else (),
             "sim": sim}
 
     info["after_ok"] = after_ok
@@ -292,6 +344,7 @@ def run_seed(seed, ctx):
     st["after_fault_call_ok"] = int(bool(info.get("after_ok")))
     st["reverse_order_runs"] = int(sc["order_mode"] == "reverse" and info["entered"])
     st["pbar_runs"] = int(sc["pbar"])
+    st["preamble_calls"] = len(sc.get("preamble") or [])
     st["closure_jobs"] = int(sc["fn_kind"] == "closure")
     st["exact_once_checked"] = int(bool(info.get("exact_once")))
     st["dict_key_order_differs"] = int(bool(info.get("dict_key_order_differs")))
